@@ -445,6 +445,51 @@ pub fn exec_step(w: &mut World, ctx: &mut Ctx, st: &Step) -> StepResult {
             check_immutable(w, ctx, &[d, p], "add_nonempty_string_assertion");
             push_doc(w, ctx, env, if ind { Some(m) } else { None }, "AddText")
         }
+        "AddTyped" => {
+            // assertions the extensions build from typed values, against the structure the specification gives them:
+            // a salt of known bytes ('salt': 40018(bytes)), once or twice over; an attachment
+            // ('attachment': {payload} ['vendor': v, and 'conformsTo': c only when one is given])
+            let (d, p) = (doc!(a0), doc!(a1));
+            let (de, pe) = (w.docs[d].env.clone(), w.docs[p].env.clone());
+            let mut vr = SimRng::new(a3);
+            let (env, m, ind, what) = match a2 % 3 {
+                0 => {
+                    let salt_bytes = |vr: &mut SimRng| -> Vec<u8> { (0..vr.range(8, 23)).map(|_| vr.below(256) as u8).collect() };
+                    let (s1, s2) = (salt_bytes(&mut vr), salt_bytes(&mut vr));
+                    let twice = a3 % 2 == 0;
+                    let env = lib!("add_salt_instance", {
+                        let e = de.add_salt_instance(bc_components::Salt::from_data(s1.clone()));
+                        if twice {
+                            e.add_salt_instance(bc_components::Salt::from_data(s2.clone()))
+                        } else {
+                            e
+                        }
+                    });
+                    let salt_m = |b: &Vec<u8>| M::assertion(M::known(known_values::SALT.value()), M::leaf(CV::tag(40018, CV::B(b.clone()))));
+                    let mut m = w.docs[d].m.add_assertion_m(&salt_m(&s1));
+                    if twice {
+                        m = m.add_assertion_m(&salt_m(&s2));
+                        ctx.probe("salted-twice");
+                    }
+                    (env, m, w.docs[d].independent, "add_salt_instance")
+                }
+                k => {
+                    let vendor = ["com.example", "", "org.vendor.x"][(a3 % 3) as usize];
+                    let conforms = if k == 1 { None } else { Some(["https://example.com/v1", ""][(a3 / 3 % 2) as usize]) };
+                    let env = lib!("add_attachment", if a3 / 6 % 2 == 0 { de.add_attachment(pe.clone(), vendor, conforms) } else { de.add_assertion_envelope(Envelope::new_attachment(pe.clone(), vendor, conforms)).map_err(|e| e.to_string()).unwrap_or_else(|_| de.clone()) });
+                    let mut inner = vec![M::assertion(M::known(known_values::VENDOR.value()), M::leaf(CV::text(vendor)))];
+                    if let Some(c) = conforms {
+                        inner.push(M::assertion(M::known(known_values::CONFORMS_TO.value()), M::leaf(CV::text(c))));
+                    } else {
+                        ctx.probe("attachment-without-conforms-to");
+                    }
+                    let att = M::assertion(M::known(known_values::ATTACHMENT.value()), M::node(M::wrapped(w.docs[p].m.clone()), inner));
+                    (env, w.docs[d].m.add_assertion_m(&att), w.docs[d].independent && w.docs[p].independent, "add_attachment")
+                }
+            };
+            check_immutable(w, ctx, &[d, p], what);
+            push_doc(w, ctx, env, if ind { Some(m) } else { None }, "AddTyped")
+        }
         "NodeInNode" => {
             // the public route to an envelope whose subject is itself an envelope with assertions: compress the whole,
             // add an assertion to the compressed element, uncompress the subject again
@@ -1320,7 +1365,7 @@ pub fn generate(property: &str, r: &mut SimRng, seed: u64) -> Scenario {
     let nsteps = if r.chance(3, 4) { r.range(3, 10) } else { r.range(10, 30) };
     // enabled families
     let weights: Vec<(&str, u64)> = {
-        let mut w: Vec<(&str, u64)> = vec![("NewLeaf", 6), ("NewKnown", 2), ("NewAssertion", 3), ("AddAssertion", 8), ("AddBatch", 1), ("AddText", 1), ("Wrap", 2)];
+        let mut w: Vec<(&str, u64)> = vec![("NewLeaf", 6), ("NewKnown", 2), ("NewAssertion", 3), ("AddAssertion", 8), ("AddBatch", 1), ("AddText", 1), ("AddTyped", 1), ("Wrap", 2)];
         let on = |r: &mut SimRng, num: u64, den: u64| r.chance(num, den);
         let emphasis = match property {
             "C02" | "C03" => 4,
